@@ -23,7 +23,7 @@ func init() {
 		Flavours: []string{"race"},
 		Cases: func(tier string) int {
 			if tier == "thorough" {
-				return 9 + 1000
+				return len(c03Exhaustive) + 1000
 			}
 			return 3 + 20
 		},
@@ -69,6 +69,9 @@ var c03Exhaustive = []c03config{
 	{Name: "refresher x ro-opener", Roles: []c03role{{"refresher", 0}, {"open-ro", 0}}, Full: true},
 	{Name: "refresher x rw-opener", Roles: []c03role{{"refresher", 0}, {"open-rw", 0}}, Full: true},
 	{Name: "refresher x refresher", Roles: []c03role{{"refresher", 0}, {"refresher", 0}}, Full: true},
+	{Name: "committer x committer x ro-opener", Roles: []c03role{{"committer", 10}, {"committer", 11}, {"open-ro", 0}}},
+	{Name: "committer (two commits) x rw-opener", Roles: []c03role{{"committer2", 10}, {"open-rw", 0}}},
+	{Name: "committer x merger (2 unmerged versions)", Roles: []c03role{{"committer", 10}, {"open-rw", 0}}, Full: true},
 }
 
 type c03in struct {
@@ -205,7 +208,7 @@ func c03Run(c *Case, w *c03world, cfg c03config, choose func(step int, enabled [
 		ep := fs3.Endpoint(st.Name, names[i])
 		setPerm(ep, func(roots []string) []string { o := append([]string(nil), roots...); sort.Strings(o); return o })
 		defer setPerm(ep, nil)
-		if role.Kind == "committer" || role.Kind == "refresher" {
+		if role.Kind == "committer" || role.Kind == "committer2" || role.Kind == "refresher" {
 			// already open before the schedule starts (from the base state)
 			if err := conns[i].Create(TableSpec{Name: tabs[i], Cols: c03Cols, Store: st.Name, Client: names[i], Prefix: "p"}); err != nil {
 				res.failed = append(res.failed, "pre-open: "+err.Error())
@@ -238,6 +241,24 @@ func c03Run(c *Case, w *c03world, cfg c03config, choose func(step int, enabled [
 		cn, t := conns[i], tabs[i]
 		bodies[i] = func() {
 			switch role.Kind {
+			case "committer2":
+				for n := 0; n < 2; n++ {
+					marker := role.Marker + n
+					call := sc.Tick()
+					cn.SetWriteTime(100 + 10*i + n)
+					err := cn.Exec(fmt.Sprintf("insert into %s values (%d,'m')", t, marker))
+					ret := sc.Tick()
+					if err != nil {
+						<-opsMu
+						res.failed = append(res.failed, fmt.Sprintf("commit of marker %d failed: %v", marker, err))
+						opsMu <- struct{}{}
+						return
+					}
+					<-opsMu
+					res.acked |= 1 << uint(marker)
+					opsMu <- struct{}{}
+					record(porcupine.Operation{ClientId: i, Input: c03in{Add: true, Marker: marker}, Call: call, Output: uint64(0), Return: ret})
+				}
 			case "committer":
 				call := sc.Tick()
 				err := cn.Exec(fmt.Sprintf("insert into %s values (%d,'m')", t, role.Marker))
